@@ -17,6 +17,7 @@ func main() {
 	kf := flag.String("known", "/verif/known_findings.txt", "known findings file")
 	verbose := flag.Bool("v", false, "print every obligation")
 	list := flag.Bool("list", false, "list registered properties")
+	describe := flag.Bool("describe", false, "print the as-built description of every registered property (markdown)")
 	manifest := flag.String("manifest", "", "print MANIFEST.json for the given comma separated list of all property ids")
 	flag.Parse()
 
@@ -27,6 +28,13 @@ func main() {
 	if *list {
 		for _, id := range registeredIDs() {
 			fmt.Println(id)
+		}
+		return
+	}
+	if *describe {
+		for _, id := range registeredIDs() {
+			p := registry[id]
+			fmt.Printf("### %s — %s\n\n*Technique.* %s.\n\n*Decided / not decided.* %s\n\n*Relies on (not decided).* %s. Vacuity floor: at least %d obligations.\n\n", id, p.title, p.technique, p.explanation, strings.Join(p.assumptions, "; "), p.minObl)
 		}
 		return
 	}
